@@ -514,6 +514,10 @@ class BleAccessory:
                 pieces.insert(k, pieces[k])
             elif ff and ff["kind"] == "endless":
                 pieces = pieces + [b"\x00"] * 64
+            elif ff and ff["kind"] == "empty_last":  # a `while len(rest) >= size` chunker: the final piece may be empty
+                pieces = pieces + [b""]
+            elif ff and ff["kind"] == "empty_middle":
+                pieces.insert(1 + ff["idx"] % max(1, len(pieces) - 1), b"")
             first = pieces.pop(0)
             self.pending_tlv_frags = pieces
             self.tlv_pieces_sent = [first] + list(pieces)
